@@ -245,6 +245,10 @@ func run[T signal.SignalTypes](c *Case) (res kit.Result) {
 			res.Failf("%s: child header %+v, want %+v", what, h, want)
 			return
 		}
+		if m := kit.RawMismatch(child, want); m != "" {
+			res.Failf("%s: child %s", what, m)
+			return
+		}
 		if h := kit.HdrOf(cur); h != parentHdr {
 			res.Failf("%s: parent header changed: %+v, was %+v", what, h, parentHdr)
 			return
